@@ -2365,7 +2365,13 @@ class HedgeRisks(Algo):
             i = d.index.get_loc(target.now)
             data.append((i, d))
 
-        hedge_risk = np.array([[_get_unit_risk(s, d, i) for (i, d) in data] for s in securities])
+        # risk per unit transacted: UpdateRisk scales unit risk by the
+        # security's multiplier, so the hedge ratios must do the same
+        def multiplier(name):
+            node = target.children.get(name, target._lazy_children.get(name))
+            return node.multiplier if node is not None else 1.0
+
+        hedge_risk = np.array([[_get_unit_risk(s, d, i) * multiplier(s) for (i, d) in data] for s in securities])
 
         # Get hedge ratios
         if self.pseudo:
